@@ -44,3 +44,6 @@ func VerifSpawn(r Runnable) bool {
 func verifSpawn(r Runnable) bool { return VerifSpawn(r) }
 
 func verifYield(op string) { VerifYield(op) }
+
+// VerifSetMinimal exposes the private base of a Set to the simulator's structural checks.
+func VerifSetMinimal[V any](s Set[V]) SetMinimal[V] { return s.set }
